@@ -96,4 +96,15 @@ def runScript (m : Mode) : List (Elem α) → Nat → List (Elem α) → List (N
     | .term => here
     | _ => here ++ runScript m r.1 (i + 1) es
 
+/-- Same with a scripted clock: every script element carries the Boolean
+    "`last_send.elapsed() > max_delay`" its `enqueue` will see (hook `verif::set_batcher_elapsed`). -/
+def runScriptTimed (m : Mode) : List (Elem α) → Nat → List (Elem α × Bool) → List (Nat × List (Elem α))
+  | _, _, [] => []
+  | buf, i, (e, el) :: es =>
+    let r := run m buf (opsOfElem el e)
+    let here := r.2.map (fun b => (i, b))
+    match e with
+    | .term => here
+    | _ => here ++ runScriptTimed m r.1 (i + 1) es
+
 end Noir.Batcher
